@@ -695,7 +695,7 @@ def run(tier):
         "equal values derived here from RFC 4648 / the digit definition, the decoders use the matching masks, nibble order and padding "
         "character; (T3) every JSON list walker skips whitespace after a ',' or ':' separator before examining the next element; "
         "(T4) serialize/deserialize agree field by field and size by size, dup/cmp cover every field, printers emit the bracketed form "
-        "the resolver accepts. Not decided: round-trip equality of base-64/hex over all strings, JSON matching semantics, inet_pton/ntop.",
+        "the resolver accepts; hexify's output layout (T2-layout, relational); inet_ntop is given the space its family needs (T4-ntop). Not decided: round-trip equality of base-64/hex over all strings, JSON matching semantics, inet_pton/ntop.",
         trusted=["libc inet_pton/inet_ntop/getaddrinfo"])
     configs = [cdb.HOST]
     for cfg in configs:
